@@ -20,6 +20,7 @@ import lib
 from lib import gz, gnat, glist, gopt
 
 REQ = "From CfdmV Require Import Common.Base C06.Model C06.Run.\nOpen Scope Z_scope."
+DEPENDS = ["C03"]   # C06/SubspaceLemmas.v, Props.v: the subspace is the orthogonal selection of C03
 
 INT_DTYPES = ["i1", "i2", "i4", "i8", "u1", "u2", "u4"]
 FLOAT_DTYPES = ["f4", "f8"]
@@ -434,6 +435,15 @@ def trailing_missing_row(rng, w, base, pint=0.15, pall=0.25):
     return row, c
 
 
+def gen_post(rng, shape, names):
+    """a later step of the history: assign to the data of the field ("data") or of a
+    construct spanning the same axes, then write"""
+    if rng.random() < 0.25:
+        kind = rng.choice(["data"] + names + names)
+        return [kind, rng.randrange(prod(shape)), rng.choice([None, 7, 9])]
+    return None
+
+
 def gen_compress2(rng, inconsistent=False):
     method = rng.choice(["contiguous", "indexed"])
     n = rng.choice([1, 2, 3, 3, 4, 5])
@@ -448,31 +458,37 @@ def gen_compress2(rng, inconsistent=False):
     if rng.random() < 0.55:
         aux = []
         for i in range(n):
-            c = rng.randrange(cnt[i], w + 1) if rng.random() < 0.5 else cnt[i]
+            r = rng.random()
+            # the coordinate of a feature is as long as the feature, longer, or
+            # (not allowed by CF 9.6 but representable) shorter
+            c = cnt[i] if r < 0.5 else (rng.randrange(cnt[i], w + 1) if r < 0.85 or not inconsistent else rng.randrange(0, w + 1))
             aux.append([100 + i * w + j if j < c else None for j in range(w)])
-        cnt = [derive(r) for r in aux]
     if rng.random() < 0.5:
         other = []
         for i in range(n):
-            c = rng.randrange(0, cnt[i] + 1) if rng.random() < 0.4 else cnt[i]
+            r = rng.random()
+            c = cnt[i] if r < 0.5 else rng.randrange(0, (w if inconsistent else cnt[i]) + 1)
             other.append([200 + i * w + j if j < c and rng.random() > 0.1 else None for j in range(w)])
     if rng.random() < 0.3:
         aux2 = [300 + i for i in range(n)]
     if inconsistent and aux is not None:
         # a data value (or a value of the other construct) beyond the count
         # derived from the auxiliary coordinate
-        cand = [i for i in range(n) if cnt[i] < w]
+        cand = [i for i in range(n) if derive(aux[i]) < w]
         if cand:
             i = rng.choice(cand)
             if other is not None and rng.random() < 0.4:
                 other[i][w - 1] = 299
             else:
                 rows[i][w - 1] = 99
-            tag = "beyond-count"
+    if aux is not None and any(max(derive(r), derive(o) if other else 0) > derive(a)
+                               for r, a, o in zip(rows, aux, other or rows)):
+        tag = "beyond-count"
     c = {"k": "compress", "tag": tag, "method": method, "shape": [n, w], "rows": rows, "auxr": aux,
          "otherr": other, "aux2r": aux2, "bounds": aux is not None and rng.random() < 0.4}
     c["dtype"] = rng.choice(["f8", "f8", "f4", "i4", "i8", "i2"])
     c["write"] = False
+    c["post"] = gen_post(rng, [n, w], [x for x, y in (("aux", aux), ("other", other)) if y is not None])
     return c
 
 
@@ -501,13 +517,38 @@ def gen_compress3(rng, inconsistent=False):
     aux2 = None
     if rng.random() < 0.4:
         # one value per profile, present wherever the profile is kept
-        aux2 = [[300 + i * npf + j if j < n_profiles([derive(x) for x in (aux or rows)[i]]) else None
+        aux2 = [[300 + i * npf + j if j < n_profiles([max(derive(x), derive(y)) for x, y in zip(rows[i], (aux or rows)[i])]) else None
                  for j in range(npf)] for i in range(nf)]
     c = {"k": "compress", "tag": tag, "method": "indexed_contiguous", "shape": [nf, npf, w], "rows": rows,
          "auxr": aux, "otherr": None, "aux2r": aux2, "bounds": False}
     c["dtype"] = rng.choice(["f8", "f8", "f4", "i4", "i8"])
     c["write"] = False
+    c["post"] = gen_post(rng, [nf, npf, w], ["aux"] if aux is not None else [])
     return c
+
+
+def gen_multi(rng):
+    """two or three compressed fields for one file: same or different methods, equal or
+    different count / index variables"""
+    k = rng.choice([2, 2, 3])
+    r = rng.random()
+    members = []
+    for n in range(k):
+        # one featureType per file (CF 9.4): all members timeSeriesProfile, or all timeSeries
+        m = gen_compress3(rng) if r < 0.35 else gen_compress2(rng)
+        m["post"] = None
+        m["bounds"] = False
+        members.append(m)
+    if rng.random() < 0.3:
+        # the same shape and counts twice: the count / index variables are equal
+        twin = json.loads(json.dumps(members[0]))
+        twin["rows"] = json.loads(json.dumps(twin["rows"]).replace("null", "null"))
+        members[1] = twin
+    for m in members:
+        m["dtype"] = rng.choice(["f8", "f4", "i4"])
+    if harmful_sharing(members) and rng.random() < 0.9:
+        return gen_multi(rng)
+    return {"k": "multi", "tag": "valid", "members": members, "dtype": "f8", "shape": [k], "write": True}
 
 
 def derive(row):
@@ -530,6 +571,8 @@ def flat_vals(code_list, dtype):
 
 
 def payload_case(c, expect):
+    if c["k"] == "multi":
+        return {"k": "multi", "members": [payload_case(m, None) for m in c["members"]]}
     if c["k"] == "compress":
         dt = c["dtype"]
 
@@ -546,7 +589,11 @@ def payload_case(c, expect):
              "aux": None if c["auxr"] is None else flat_vals(fl(c["auxr"], nd), "f8"),
              "other": None if c["otherr"] is None else flat_vals(fl(c["otherr"], nd), dt),
              "aux2": None if c["aux2r"] is None else flat_vals(fl(c["aux2r"], nd - 1), "f8"),
-             "bounds": c["bounds"], "write": c["write"]}
+             "bounds": c["bounds"], "write": c["write"], "post": None}
+        if c.get("post") is not None:
+            kind, pos, v = c["post"]
+            pdt = "f8" if kind == "aux" else dt
+            p["post"] = [kind, pos, None if v is None else val_of_code(v, pdt)]
         return p
     dt = c["dtype"]
     if c["k"] == "gathered":
@@ -640,8 +687,9 @@ def g_case_compress(c, r):
     cd = carr.get("ok", [BAD])
     if c["method"] == "indexed_contiguous":
         aux = "None" if c["auxr"] is None else f"(Some {glist(c['auxr'], g_rows)})"
+        oaux = arr if c["auxr"] is None else obs_of(r["cons"]["aux"].get("array"), "f8")
         return (f"(KCompress3 {gnat(c['shape'][1])} {gnat(c['shape'][2])} {glist(c['rows'], g_rows)} {aux} "
-                f"{g_zs(anc.get('count', [BAD]))} {g_zs(anc.get('index', [BAD]))} {g_vals(cd)} {g_obs(arr)})")
+                f"{g_zs(anc.get('count', [BAD]))} {g_zs(anc.get('index', [BAD]))} {g_vals(cd)} {g_obs(arr)} {g_obs(oaux)})")
     m = "MContiguous" if c["method"] == "contiguous" else "MIndexed"
     var = anc.get("count" if c["method"] == "contiguous" else "index", [BAD])
     aux = "None" if c["auxr"] is None else f"(Some {g_rows(c['auxr'])})"
@@ -701,6 +749,10 @@ def oracle_array(chk, c, r, exp):
         failed = bad(f"{c['k']}:dtype", f"dtype {a['ok']['dtype']} / {r['dtype']} is not that of the compressed data {NP_DTYPE[dt]}")
     if failed:
         return True
+    if r.get("alias"):
+        failed = bad(f"{c['k']}:returned-array-aliases-internal-state",
+                     "an array returned by the implementation was overwritten in place and the next read changed: "
+                     + ", ".join(x["what"] for x in r["alias"]), None, r["alias"][:3])
     # subspace
     if c["idx"] is not None:
         es, eshape = take(exp, c["shape"], c["idx"])
@@ -709,6 +761,9 @@ def oracle_array(chk, c, r, exp):
             failed = bad(f"{c['k']}:subspace", f"subspace {c['idx']} raised {s['err']}: {s.get('msg')}", es, s)
         else:
             gs = codes(s["ok"]["a"]["flat"], dt)
+            if (codes(s["ok"]["parent_after"]["flat"], dt) != exp or codes(s["ok"]["again"]["flat"], dt) != es):
+                failed = bad(f"{c['k']}:returned-array-aliases-internal-state",
+                             "overwriting the array of a subspace changed the parent data or a later subspace", exp, s["ok"])
             if s["ok"]["a"]["shape"] != eshape or gs != es:
                 failed = bad(f"{c['k']}:subspace", f"subspace {c['idx']} of the compressed data is not the subspace of the uncompressed array",
                              {"shape": eshape, "flat": es}, {"shape": s["ok"]["a"]["shape"], "flat": gs})
@@ -721,7 +776,8 @@ def oracle_array(chk, c, r, exp):
         st_ok = st_ok and r.get("ctype2") == r["ctype0"]
     u = r.get("uncompress", {})
     if "ok" in u:
-        if u["ok"]["ctype_u"] != "" or codes(u["ok"]["a"]["flat"], dt) != exp or u["ok"]["ctype_d"] != r["ctype0"]:
+        if (u["ok"]["ctype_u"] != "" or codes(u["ok"]["a"]["flat"], dt) != exp or u["ok"]["ctype_d"] != r["ctype0"]
+                or codes(u["ok"]["d_after"]["flat"], dt) != exp):
             failed = bad(f"{c['k']}:uncompress", "uncompress() did not return the uncompressed array as plain data, or changed its source", exp, u)
     else:
         failed = bad(f"{c['k']}:uncompress", f"uncompress() raised {u.get('err')}", None, u)
@@ -856,8 +912,7 @@ def oracle_file_common(chk, kindname, dtype, full_shape, exp, r, bad, ctype):
         failed = bad(f"{kindname}:file-decode", "an independent decoder of the written count/index/list variables does not recover the array",
                      {"shape": full_shape, "flat": exp}, {"shape": rshape, "flat": rcodes})
     rr = r.get("reread", {})
-    nsamples = len(raw["vars"]["tas"]["flat"])
-    if nsamples:
+    if True:
         if "ok" not in rr or rr["ok"]["n"] != 1:
             failed = bad(f"{kindname}:reread", f"reading the written file back failed: {rr}")
         else:
@@ -895,7 +950,6 @@ def oracle_compress(chk, c, r):
         return bad(f"{kind}:driver", r["driver_error"])
     if "ok" not in r["compress"]:
         return bad(f"{kind}:raises", f"compress raised {r['compress']['err']}: {r['compress'].get('msg')}")
-    beyond = c["tag"] == "beyond-count"
     failed = False
     a = r["array"]
     got = codes(a["ok"]["flat"], dt) if "ok" in a else a
@@ -903,12 +957,18 @@ def oracle_compress(chk, c, r):
         failed = bad(f"{kind}:not-compressed", f"compression type after compress is {r['ctype']!r}")
     if got != exp or a["ok"]["shape"] != c["shape"]:
         failed = bad(sig_compress(c, exp, got), "the array of the compressed field is not the array of the original field", exp, got)
-    elif not beyond:
-        flags = {k: r[k].get("ok", r[k]) for k in ("g_eq_f", "f_eq_g")}
+    else:
+        flags = {k: r[k].get("ok", r[k]) for k in ("g_eq_f", "f_eq_g", "g_eq_f_end")}
         u = r["uncompress"].get("ok", {})
-        if flags != {"g_eq_f": True, "f_eq_g": True} or not u or not u["u_eq_f"] or u["ctype_u"] != "" or u["ctype_g"] != r["ctype"]:
-            failed = bad(f"{kind}:equals", "compressed field / uncompressed field do not compare equal to the original",
+        if (flags != {"g_eq_f": True, "f_eq_g": True, "g_eq_f_end": True} or not u or not u["u_eq_f"] or u["ctype_u"] != ""
+                or u["ctype_g"] != r["ctype"] or r["ctype_end"] != r["ctype"] or codes(u["g_after"]["flat"], dt) != exp):
+            failed = bad(sig_compress(c, exp, None) if c["tag"] == "beyond-count" else f"{kind}:equals",
+                         "compressed field / uncompressed field do not compare equal to the original",
                          None, {"flags": flags, "uncompress": r["uncompress"]})
+    if r.get("alias"):
+        failed = bad(f"{kind}:returned-array-aliases-internal-state",
+                     "an array returned by the implementation was overwritten in place and the next read changed: "
+                     + ", ".join(x["what"] for x in r["alias"]), None, r["alias"][:3])
     if r["f_unchanged"].get("ok") is not True:
         failed = bad(f"{kind}:source-changed", "compress(inplace=False) changed its source field", None, r["f_unchanged"])
     # constructs spanning the same axes
@@ -929,6 +989,189 @@ def oracle_compress(chk, c, r):
                 failed = bad(f"{kind}:bounds", "the bounds of the auxiliary coordinate changed under compress", ent.get("bounds0"), b)
     if c["write"] and not failed:
         failed = oracle_file_common(chk, kind, dt, c["shape"], exp, r, bad, CTYPE[c["method"]]) or failed
+        if not failed:
+            failed = oracle_file_constructs(c, r["raw"]["ok"], r.get("reread_all", {}), "", kind, bad)
+    if c.get("post") is not None and not failed:
+        failed = oracle_post(c, r, exp, kind, bad) or failed
+    return failed
+
+
+def construct_arrays(c):
+    """name -> (netCDF variable, dtype, flat expected array) of the constructs on the field's axes"""
+    nd = len(c["shape"])
+    out = {}
+    if c["auxr"] is not None:
+        out["aux"] = ("aux0", "f8", flat_nested(c["auxr"], nd))
+    if c["otherr"] is not None:
+        out["other"] = ("anc0", c["dtype"], flat_nested(c["otherr"], nd))
+    return out
+
+
+def oracle_file_constructs(c, raw, reread, suffix, kind, bad):
+    """the constructs spanning the field's axes are in the file on the sample dimension, and
+    decode (raw, and by cfdm) to their arrays"""
+    failed = False
+    for name, (ncvar, cdt, e) in construct_arrays(c).items():
+        ncvar += suffix
+        if ncvar not in raw["vars"]:
+            failed = bad(f"{kind}:file-construct", f"variable {ncvar} of the construct spanning the field's axes is not in the file")
+            continue
+        try:
+            rtype, rshape, rflat = decode_raw(raw, ncvar)
+        except Exception as ex:  # noqa
+            failed = bad(f"{kind}:file-construct", f"{ncvar} cannot be decoded from the raw file: {type(ex).__name__}: {ex}")
+            continue
+        if rtype != CTYPE[c["method"]] or not embed_ok(c["shape"], e, rshape, codes(rflat, cdt)):
+            failed = bad(f"{kind}:file-construct", f"{ncvar}: an independent decoder of the written variables does not recover the construct's array",
+                         {"ctype": CTYPE[c["method"]], "shape": c["shape"], "flat": e}, {"ctype": rtype, "shape": rshape, "flat": codes(rflat, cdt)})
+        rr = reread.get("ok") if isinstance(reread, dict) else None
+        if rr is not None:
+            ents = [f["cons"].get(ncvar) for f in rr.values() if ncvar in f["cons"]]
+            if not ents or not embed_ok(c["shape"], e, ents[0]["shape"], codes(ents[0]["flat"], cdt)):
+                failed = bad(f"{kind}:reread-construct", f"{ncvar}: the construct read back from the file does not present the same array",
+                             {"shape": c["shape"], "flat": e}, ents[:1])
+    return failed
+
+
+def oracle_post(c, r, exp, kind, bad):
+    """compress, then assign to the data of the field or of one construct on the same axes,
+    then write: only what was assigned to is decompressed and changed; the result can be
+    written and read back"""
+    pr = r.get("post")
+    if pr is None:
+        return bad(f"{kind}:post", "the later steps of the history were not run")
+    where, pos, v = c["post"]
+    dt = c["dtype"]
+    failed = False
+    want = {"data": (dt, list(exp))}
+    for name, (ncvar, cdt, e) in construct_arrays(c).items():
+        want[name] = (cdt, list(e))
+    want[where][1][pos] = v
+    got = {"data": pr["array"]}
+    ctypes = {"data": pr["ctype_field"]}
+    for name in want:
+        if name != "data":
+            got[name] = pr["cons"][name]["array"]
+            ctypes[name] = pr["cons"][name]["ctype"]
+    for name, (cdt, e) in want.items():
+        g = got[name]
+        gc = codes(g["ok"]["flat"], cdt) if "ok" in g else g
+        wct = "" if name == where else CTYPE[c["method"]]
+        if gc != e or ctypes[name] != wct:
+            failed = bad(f"{kind}:assign-after-compress", f"after assigning to {where}: {name} shows a wrong array or compression state {ctypes[name]!r} (expected {wct!r})",
+                         e, gc)
+    if pr["orig_ctype"] != CTYPE[c["method"]] or pr["orig_eq"].get("ok") is not True:
+        failed = bad(f"{kind}:assign-after-compress", "assigning to a copy of the compressed field changed the field it was copied from", None, pr)
+    if failed:
+        return True
+    w = pr["write"]
+    if "ok" not in w:
+        sig = "compress:file-after-construct-assignment" if where != "data" else f"{kind}:file-after-assignment"
+        return bad(sig, f"after assigning to {where} of the compressed field, writing it raised {w.get('err')}: {w.get('msg')}")
+    rr = pr.get("reread", {})
+    raw = pr.get("raw", {}).get("ok")
+    if "ok" not in rr or raw is None or "tas" not in rr["ok"]:
+        return bad(f"{kind}:file-after-assignment", f"the file written after the assignment cannot be read back: {str(rr)[:300]}")
+    ent = rr["ok"]["tas"]
+    if not embed_ok(c["shape"], want["data"][1], ent["array"]["shape"], codes(ent["array"]["flat"], dt)):
+        failed = bad(f"{kind}:file-after-assignment", "the field read back after compress, assign, write does not present the assigned array",
+                     want["data"][1], ent["array"])
+    for name, (ncvar, cdt, e0) in construct_arrays(c).items():
+        e = want[name][1]
+        cg = ent["cons"].get(ncvar)
+        if cg is None or not embed_ok(c["shape"], e, cg["shape"], codes(cg["flat"], cdt)):
+            failed = bad(f"{kind}:file-after-assignment", f"construct {ncvar} read back after compress, assign, write does not present its array", e, cg)
+    try:
+        rtype, rshape, rflat = decode_raw(raw, "tas")
+        if not embed_ok(c["shape"], want["data"][1], rshape, codes(rflat, dt)):
+            failed = bad(f"{kind}:file-after-assignment", "an independent decoder of the file written after the assignment does not recover the field's array",
+                         want["data"][1], {"shape": rshape, "flat": codes(rflat, dt)})
+    except Exception as ex:  # noqa
+        failed = bad(f"{kind}:file-after-assignment", f"the file written after the assignment cannot be decoded: {type(ex).__name__}: {ex}")
+    return failed
+
+
+def file_variables(m):
+    """(count variable, index variable, number of features) that compress gives member m"""
+    nd = len(m["shape"])
+    arrays = [m["rows"]] + [x for x in (m["auxr"], m["otherr"]) if x is not None]
+    flat = [flat_nested(a, nd - 1) if nd == 3 else a for a in arrays]
+    cnt = [max(derive(a[i]) for a in flat) for i in range(len(flat[0]))]
+    nf = m["shape"][0]
+    if m["method"] == "contiguous":
+        return cnt, None, nf
+    if m["method"] == "indexed":
+        return None, [i for i, c in enumerate(cnt) for _ in range(c)], nf
+    npf = m["shape"][1]
+    per = [cnt[i * npf:(i + 1) * npf] for i in range(nf)]
+    kept = [n_profiles(p) for p in per]
+    return [x for p, k in zip(per, kept) for x in p[:k]], [i for i, k in enumerate(kept) for _ in range(k)], nf
+
+
+def harmful_sharing(members):
+    """The writer stores equal count / index variables once.  That loses information when two
+    indexed fields have equal index variables but different numbers of features, or two
+    indexed contiguous fields have equal count variables but different index variables or
+    numbers of features (open finding multi:equal-count-or-index-variables-shared-across-fields)."""
+    fv = [file_variables(m) for m in members]
+    for a in range(len(members)):
+        for b in range(a + 1, len(members)):
+            ma, mb = members[a]["method"], members[b]["method"]
+            (ca, ia, na), (cb, ib, nb) = fv[a], fv[b]
+            if ma == mb == "indexed" and ia == ib and na != nb:
+                return True
+            if ma == mb == "indexed_contiguous" and ca == cb and (ia != ib or na != nb):
+                return True
+    return False
+
+
+def oracle_multi(chk, c, r):
+    """several compressed fields in one file: each is written compressed with its own count /
+    index variables, from which its array is recovered (raw decoder and cfdm.read)"""
+    harm = harmful_sharing(c["members"])
+
+    def bad(sig, what, expected=None, observed=None):
+        if harm and sig != "multi:driver":
+            sig = "multi:equal-count-or-index-variables-shared-across-fields"
+        chk.fail("property", sig, what, {"input": c_public(c), "expected": expected, "observed": observed})
+        return True
+    if "driver_error" in r:
+        return bad("multi:driver", r["driver_error"])
+    w = r["write"]
+    methods = "+".join(sorted({m["method"] for m in c["members"]}))
+    if "ok" not in w:
+        return bad("multi:file", f"writing {len(c['members'])} compressed fields ({methods}) to one file raised {w.get('err')}: {w.get('msg')}")
+    raw = r["raw"].get("ok")
+    rr = r["reread"]
+    if raw is None:
+        return bad("multi:file", f"the written file cannot be inspected: {r['raw']}")
+    failed = False
+    for n, m in enumerate(c["members"]):
+        exp = flat_nested(m["rows"], len(m["shape"]))
+        dt = m["dtype"]
+        ncvar = f"tas_{n}"
+        ct = CTYPE[m["method"]]
+        if r["ctypes"][n] != ct or codes(r["arrays"][n]["flat"], dt) != exp:
+            failed = bad("multi:compress", f"member {n} is not compressed to the same array", exp, r["arrays"][n])
+            continue
+        try:
+            rtype, rshape, rflat = decode_raw(raw, ncvar)
+        except Exception as ex:  # noqa
+            failed = bad("multi:file-decode", f"{ncvar} cannot be decoded from the raw file: {type(ex).__name__}: {ex}", None,
+                         {k: (v["dims"], v["attrs"]) for k, v in raw["vars"].items()})
+            continue
+        if rtype != ct or not embed_ok(m["shape"], exp, rshape, codes(rflat, dt)):
+            failed = bad("multi:file-decode", f"{ncvar} ({ct}): an independent decoder of the written count/index variables does not recover the array",
+                         {"ctype": ct, "shape": m["shape"], "flat": exp},
+                         {"ctype": rtype, "shape": rshape, "flat": codes(rflat, dt), "vars": {k: (v["dims"], v["attrs"], v["flat"]) for k, v in raw["vars"].items()}})
+        failed = oracle_file_constructs(m, raw, rr, f"_{n}", "multi", bad) or failed
+        if "ok" not in rr or ncvar not in rr["ok"]:
+            failed = bad("multi:reread", f"{ncvar} is not among the fields read back: {str(rr)[:300]}")
+        else:
+            ent = rr["ok"][ncvar]
+            if ent["ctype"] != ct or not embed_ok(m["shape"], exp, ent["array"]["shape"], codes(ent["array"]["flat"], dt)):
+                failed = bad("multi:reread", f"{ncvar} read back from the file does not present the same array",
+                             {"ctype": ct, "shape": m["shape"], "flat": exp}, ent)
     return failed
 
 
@@ -975,15 +1218,59 @@ CORPUS = [
     {"k": "compress", "tag": "valid", "method": "contiguous", "shape": [2, 3],
      "rows": [[1, None, 3], [4, 5, None]], "auxr": None, "otherr": None, "aux2r": None, "bounds": False,
      "dtype": "f8", "write": True},
+    # F06f (fix2-1): a field value beyond the last value of the auxiliary coordinate
+    {"k": "compress", "tag": "beyond-count", "method": "indexed", "shape": [1, 3],
+     "rows": [[1, None, 99]], "auxr": [[100, None, None]], "otherr": None, "aux2r": None, "bounds": False,
+     "dtype": "f8", "write": True, "post": None},
+    {"k": "compress", "tag": "beyond-count", "method": "contiguous", "shape": [2, 3],
+     "rows": [[1, None, None], [4, 5, None]], "auxr": [[100, None, None], [101, 102, None]],
+     "otherr": [[201, 202, None], [None, None, 203]], "aux2r": None, "bounds": False,
+     "dtype": "i4", "write": True, "post": None},
+    # fix2-2: no sample at all (every feature empty): the file must be readable
+    {"k": "compress", "tag": "valid", "method": "indexed", "shape": [3, 2],
+     "rows": [[None, None], [None, None], [None, None]], "auxr": None, "otherr": None, "aux2r": None,
+     "bounds": False, "dtype": "f8", "write": True, "post": None},
+    {"k": "compress", "tag": "valid", "method": "indexed_contiguous", "shape": [2, 2, 2],
+     "rows": [[[None, None], [None, None]], [[None, None], [None, None]]], "auxr": None, "otherr": None,
+     "aux2r": None, "bounds": False, "dtype": "f8", "write": True, "post": None},
+    # fix2-3: two compressed fields with different index variables in one file; a contiguous
+    # and an indexed field in one file
+    {"k": "multi", "tag": "valid", "dtype": "f8", "shape": [2], "write": True, "members": [
+        {"k": "compress", "tag": "valid", "method": "indexed", "shape": [2, 3], "rows": [[1, 2, None], [3, None, None]],
+         "auxr": None, "otherr": None, "aux2r": None, "bounds": False, "dtype": "f8", "write": False, "post": None},
+        {"k": "compress", "tag": "valid", "method": "indexed", "shape": [2, 3], "rows": [[4, None, None], [5, 6, 7]],
+         "auxr": None, "otherr": None, "aux2r": None, "bounds": False, "dtype": "f8", "write": False, "post": None}]},
+    {"k": "multi", "tag": "valid", "dtype": "f8", "shape": [2], "write": True, "members": [
+        {"k": "compress", "tag": "valid", "method": "indexed_contiguous", "shape": [2, 2, 2],
+         "rows": [[[1, 2], [3, None]], [[4, None], [None, None]]],
+         "auxr": None, "otherr": None, "aux2r": None, "bounds": False, "dtype": "f8", "write": False, "post": None},
+        {"k": "compress", "tag": "valid", "method": "indexed_contiguous", "shape": [3, 2, 2],
+         "rows": [[[5, None], [None, None]], [[6, 7], [8, 9]], [[1, None], [None, None]]],
+         "auxr": None, "otherr": None, "aux2r": None, "bounds": False, "dtype": "f8", "write": False, "post": None}]},
+    {"k": "multi", "tag": "valid", "dtype": "f8", "shape": [2], "write": True, "members": [
+        {"k": "compress", "tag": "valid", "method": "contiguous", "shape": [2, 3], "rows": [[1, 2, None], [3, None, None]],
+         "auxr": None, "otherr": None, "aux2r": None, "bounds": False, "dtype": "f8", "write": False, "post": None},
+        {"k": "compress", "tag": "valid", "method": "indexed", "shape": [2, 3], "rows": [[4, None, None], [5, 6, 7]],
+         "auxr": None, "otherr": None, "aux2r": None, "bounds": False, "dtype": "f8", "write": False, "post": None}]},
+    # fix2-4: compress, assign to the field data (the constructs stay compressed), write
+    {"k": "compress", "tag": "valid", "method": "contiguous", "shape": [2, 3],
+     "rows": [[1, 2, None], [3, None, None]], "auxr": [[101, 102, None], [103, None, None]], "otherr": None,
+     "aux2r": None, "bounds": False, "dtype": "f8", "write": False, "post": ["data", 0, 9]},
+    # open: compress, assign to a construct spanning the field's axes, write
+    {"k": "compress", "tag": "valid", "method": "contiguous", "shape": [2, 3],
+     "rows": [[1, 2, None], [3, None, None]], "auxr": [[101, 102, None], [103, None, None]], "otherr": None,
+     "aux2r": None, "bounds": False, "dtype": "f8", "write": False, "post": ["aux", 0, 9]},
 ]
 
 
 def is_valid(c):
-    return c.get("tag") == "valid"
+    return c.get("tag") == "valid" or (c["k"] == "compress" and c.get("tag") == "beyond-count")
 
 
 def nontrivial(c):
     """rule used for coverage: see chk.coverage['rule']"""
+    if c["k"] == "multi":
+        return True
     if c["k"] == "compress":
         flat = flat_nested(c["rows"], len(c["shape"]))
         return any(v is None for v in flat) and any(v is not None for v in flat)
@@ -1008,12 +1295,14 @@ def generate(chk):
             cases.append(gen(rng, malformed=True))
     for _ in range(520 * scale):
         cases.append(gen_compress2(rng))
-    for _ in range(45 * scale):
+    for _ in range(90 * scale):
         cases.append(gen_compress2(rng, inconsistent=True))
     for _ in range(420 * scale):
         cases.append(gen_compress3(rng))
     for _ in range(30 * scale):
         cases.append(gen_compress3(rng, inconsistent=True))
+    for _ in range(60 * scale):
+        cases.append(gen_multi(rng))
     # file level: a share of the valid cases is also written and inspected
     nfiles = 0
     budget = 1500 if thorough else 300
@@ -1023,7 +1312,7 @@ def generate(chk):
         c = cases[i]
         if nfiles >= budget:
             break
-        if not is_valid(c) or dkind(c["dtype"]) == "s":
+        if not is_valid(c) or dkind(c["dtype"]) == "s" or c["k"] == "multi":
             continue
         c["write"] = True
         nfiles += 1
@@ -1034,7 +1323,7 @@ def run(chk, model_ok):
     cases = generate(chk)
     expects = []
     for c in cases:
-        if c["k"] != "compress" and is_valid(c):
+        if c["k"] not in ("compress", "multi") and is_valid(c):
             expects.append(expected_array(c))
         else:
             expects.append(None)
@@ -1065,7 +1354,10 @@ def run(chk, model_ok):
             chk.fail("correspondence", "driver-error", r["driver_error"], {"correspondence": "drive/c06.py", "input": c_public(c)})
             explained.add(i)
             continue
-        if c["k"] == "compress":
+        if c["k"] == "multi":
+            oracle_multi(chk, c, r)
+            explained.add(i)
+        elif c["k"] == "compress":
             if oracle_compress(chk, c, r):
                 explained.add(i)
         elif is_valid(c):
@@ -1077,7 +1369,7 @@ def run(chk, model_ok):
     if model_ok:
         lits, idxs = [], []
         for i, c, r in done:
-            if "driver_error" in r:
+            if "driver_error" in r or c["k"] == "multi":
                 continue
             try:
                 if c["k"] == "compress":
@@ -1105,6 +1397,8 @@ def run(chk, model_ok):
     fam, tags, dts, sizes = {}, {}, {}, {}
     for i, c, r in done:
         key = c["k"] if c["k"] != "compress" else "compress-" + c["method"]
+        if c["k"] == "multi":
+            key = "multi:" + "+".join(m["method"] for m in c["members"])
         fam[key] = fam.get(key, 0) + 1
         tags[c.get("tag")] = tags.get(c.get("tag"), 0) + 1
         dts[c["dtype"]] = dts.get(c["dtype"], 0) + 1
@@ -1112,7 +1406,7 @@ def run(chk, model_ok):
     distinct = {lib.canon({k: v for k, v in c.items() if k not in ("write", "assign")}) for i, c, r in done if nontrivial(c)}
     errs = {}
     for i, c, r in done:
-        if c["k"] != "compress":
+        if c["k"] not in ("compress", "multi"):
             e = r.get("build", r.get("array", {})).get("err", "Ok")
             errs[e] = errs.get(e, 0) + 1
     feat = {
@@ -1121,9 +1415,9 @@ def run(chk, model_ok):
         "unsorted_index": sum(1 for i, c, r in done if c["k"] in ("indexed", "ic") and c["index"] != sorted(c["index"])),
         "unsorted_list": sum(1 for i, c, r in done if c["k"] == "gathered" and c["list"] != sorted(c["list"])),
         "sparse_list": sum(1 for i, c, r in done if c["k"] == "gathered" and len(c["list"]) < prod(c["dims"])),
-        "trailing_dims": sum(1 for i, c, r in done if c["k"] != "compress" and c["t"] > 1),
+        "trailing_dims": sum(1 for i, c, r in done if c["k"] not in ("compress", "multi") and c["t"] > 1),
         "leading_dims": sum(1 for i, c, r in done if c["k"] == "gathered" and c["ldims"]),
-        "masked_compressed_values": sum(1 for i, c, r in done if c["k"] != "compress" and any(
+        "masked_compressed_values": sum(1 for i, c, r in done if c["k"] not in ("compress", "multi") and any(
             v is None for cell in (c["cells"] if "cells" in c else [x for b in c["blocks"] for x in b]) for v in cell)),
         "subspaces": sum(1 for i, c, r in done if c.get("idx") is not None),
         "assignments": sum(1 for i, c, r in done if c.get("assign") is not None),
@@ -1134,6 +1428,13 @@ def run(chk, model_ok):
             None in x[:derive(x)] for x in (c["rows"] if len(c["shape"]) == 2 else [y for f in c["rows"] for y in f]))),
         "compress_with_aux": sum(1 for i, c, r in done if c["k"] == "compress" and c["auxr"] is not None),
         "compress_with_bounds": sum(1 for i, c, r in done if c["k"] == "compress" and c["bounds"]),
+        "compress_value_beyond_aux_coordinate": sum(1 for i, c, r in done if c["k"] == "compress" and c["tag"] == "beyond-count"),
+        "compress_then_assign_then_write": sum(1 for i, c, r in done if c["k"] == "compress" and c.get("post")),
+        "compress_then_assign_to_construct": sum(1 for i, c, r in done if c["k"] == "compress" and c.get("post") and c["post"][0] != "data"),
+        "zero_sample_files": sum(1 for i, c, r in done if c.get("write") and c["k"] == "compress"
+                                 and all(v is None for v in flat_nested(c["rows"], len(c["shape"])))),
+        "files_with_several_compressed_fields": sum(1 for i, c, r in done if c["k"] == "multi"),
+        "returned_arrays_overwritten_then_reread": sum(1 for i, c, r in done if "alias" in r),
     }
     samples = [c_public(done[k][1]) for k in (len(CORPUS), len(done) // 2, len(done) - 1) if k < len(done)]
     chk.coverage.update({
@@ -1157,13 +1458,17 @@ def run(chk, model_ok):
         "valid inputs: len(count) = number of features, sum(count) = sample dimension size, every count <= element dimension; "
         "index values in range(number of features), every instance's samples fit the element dimension; list values distinct and "
         "in range; malformed inputs are compared with the model only (outcome class and array), not judged by the property",
-        "Field.compress: counts are taken from the first auxiliary coordinate spanning the field's axes when there is one; "
-        "values of the field or of another construct lying beyond that count are dropped (open finding "
-        "compress:values-beyond-auxiliary-count-dropped; CF 9.6 does not allow such fields)",
+        "Field.compress (with handoff/C06-fix2-1): the count of a feature is the largest count derived from the field data and "
+        "from every construct spanning the same axes; bounds of such constructs are assumed missing wherever the construct is "
+        "(they are packed with the same counts but do not contribute to them); constructs spanning only the leading axes of an "
+        "indexed contiguous field are assumed missing at the profiles that are not stored",
         "a file cannot record element dimensions larger than the largest count: file-level arrays are compared after removing "
         "trailing all-missing columns (and profiles), the remainder being required to be all missing",
-        "re-reading a written file with cfdm is compared only when the sample dimension is non-empty (cfdm.read raises ValueError "
-        "on an indexed ragged array without samples - outside the property, reported in handoff/C06.md)",
+        "files holding several compressed fields: one featureType per file (CF 9.4); the fields are two or three generated "
+        "compress cases with their own netCDF names; equal count / index variables shared across fields are an open finding",
+        "every array returned by the implementation (array, subspace, compressed_array, count/index/list variable, "
+        "uncompress) is overwritten in place after it has been recorded and read again; returned arrays that are read-only "
+        "cannot be overwritten and are not tested that way",
         "subspace indices are generated in range (slices, integers, integer lists); the full index semantics is property C03",
         "chunked decompression (subarrays(shapes=...)) is not exercised: this cfdm version always decompresses with shapes=-1",
     ]
@@ -1176,18 +1481,20 @@ def replay(chk, path):
         c = x.get("case") or x.get("input")
         if c and "k" in c:
             c = dict(c)
-            if c["k"] != "compress":
+            if c["k"] not in ("compress", "multi"):
                 c.setdefault("t", prod(c["shape"][{"contig": 2, "indexed": 2, "ic": 3}.get(c["k"], 0):]) if c["k"] != "gathered" else prod(c["tdims"]))
             cases.append(c)
     if not cases:
         print("no replayable case in", path)
         return 0
-    expects = [expected_array(c) if c["k"] != "compress" and is_valid(c) else None for c in cases]
+    expects = [expected_array(c) if c["k"] not in ("compress", "multi") and is_valid(c) else None for c in cases]
     rc, out, err = lib.run_worker("drive/c06.py", {"scratch": chk.scratch, "cases": [payload_case(c, e) for c, e in zip(cases, expects)]})
     bad = 0
     for c, e, r in zip(cases, expects, out):
         n0 = len(chk.failures)
-        if c["k"] == "compress":
+        if c["k"] == "multi":
+            oracle_multi(chk, c, r)
+        elif c["k"] == "compress":
             oracle_compress(chk, c, r)
         elif is_valid(c):
             oracle_array(chk, c, r, e)
